@@ -9,13 +9,13 @@ Bind: (1) dqstate_conformance: the real inline dq_state functions vs the DQState
 (2) harness/drv_chain.c: the same shapes (and larger ones, workloop bottom included) on the real
 library under perturbation, the property's statement evaluated on the recorded total order;
 (3) the recorded dq_state accesses of EVERY queue of the hierarchy, split per queue, validated
-against spec/LaneWordTrace.tla (each access must be a transition its DQState operator allows)."""
+against spec/ChainWordTrace.tla (each access must be a transition its DQState operator allows)."""
 import os, re, json
 from vlib import *
 from props.lane_common import dqstate_conformance, FUNC_PROPS
 PROP = "C03"
 
-INVS = "HierarchyExclusion Order BarrierExcl AtMostOnce NoStrand SyncAfterEnd WidthOK NoEarlyStart NoCrash RefOK"
+INVS = "HierarchyExclusion Order BarrierExcl AtMostOnce NoStrand SyncAfterEnd WidthOK NoEarlyStart NoCrash RefOK LockChain DrainFromTarget"
 # mutants are judged by the property's own invariants only (not by the accounting ones that notice a corrupt word first)
 INVS_PROP = "HierarchyExclusion Order AtMostOnce NoStrand SyncAfterEnd"
 
@@ -125,9 +125,13 @@ WL_SIG = "WLH-ANON-DEREF"
 WL_KEY = "workloop-bottom: lane drained under a workloop dereferences DISPATCH_WLH_ANON (_dispatch_lane_drain, DISPATCH_INVOKE_WORKLOOP_DRAIN)"
 
 
+API_EVENTS = ("Call", "Ret", "Start", "End", "SetTargetCall", "SetTargetRet", "ActCall", "ActRet")
+
+
 def split_trace(tr, d, tag):
-    """One ndjson per queue of the hierarchy: that queue's St / Reset / Quiesce records, in order."""
-    per = {}
+    """One ndjson per queue of the hierarchy: that queue's St / Tail / Reset / Quiesce records in order, plus the
+    API-level events of every queue (they are events of THREADS: they end obligation windows of ChainWordTrace)."""
+    per, order = {}, []
     for line in open(tr):
         if not line.strip():
             continue
@@ -136,10 +140,17 @@ def split_trace(tr, d, tag):
         except Exception:
             continue
         e = j.get("e")
-        if e in ("St", "Reset", "Quiesce") and "q" in j:
-            per.setdefault(j["q"], []).append(line)
-        elif e in ("Crash", "Hang", "Overflow"):
-            pass
+        if e in ("St", "Tail", "Reset", "Quiesce") and "q" in j:
+            per.setdefault(j["q"], [])
+            order.append((j["q"], line))
+        elif e in API_EVENTS:
+            order.append((None, line))
+    for q, line in order:
+        if q is None:
+            for k in per:
+                per[k].append(line)
+        else:
+            per[q].append(line)
     out = {}
     for q, lines in per.items():
         p = os.path.join(d, "%s_q%d.ndjson" % (tag, q))
@@ -173,7 +184,7 @@ def word_level_hint(tr, d, tag):
             lines = open(p).read().splitlines()
             if any('"f":"_dispatch_workloop' in l for l in lines[:400]):
                 continue
-            res = validate_trace("LaneWordTrace.tla", wordtrace_cfg(widths[q]), p, nthreads=nt, metaname="C03_hint_%s_%d" % (tag, q))
+            res = validate_trace("ChainWordTrace.tla", wordtrace_cfg(widths[q]), p, nthreads=nt, metaname="C03_hint_%s_%d" % (tag, q))
             if not res.accepted and res.maxl:
                 # maxl = index (file with header) of the first record not consumed; an invariant is violated by the last consumed one
                 k = res.maxl - (3 if res.violated else 2)
@@ -191,8 +202,8 @@ def word_level_hint(tr, d, tag):
 
 
 def wordtrace_cfg(W):
-    cfg = os.path.join(rundir(PROP), "LaneWordTrace_W%d.cfg" % W)
-    txt = open(os.path.join(SPEC, "cfg", "LaneWordTrace.cfg")).read().replace("W = 1", "W = %d" % W)
+    cfg = os.path.join(rundir(PROP), "ChainWordTrace_W%d.cfg" % W)
+    txt = open(os.path.join(SPEC, "cfg", "ChainWordTrace.cfg")).read().replace("W = 1", "W = %d" % W)
     if not os.path.exists(cfg) or open(cfg).read() != txt:      # validations run concurrently: never rewrite a cfg in use
         tmp = "%s.%d.tmp" % (cfg, os.getpid())
         open(tmp, "w").write(txt)
@@ -203,9 +214,9 @@ def wordtrace_cfg(W):
 def validate_queue_run(tr, W, nt, meta):
     """LaneWordTrace on the accesses of one queue (W = its width); a rejection is re-checked once."""
     cfg = wordtrace_cfg(W)
-    res = validate_trace("LaneWordTrace.tla", cfg, tr, nthreads=nt, metaname=meta)
+    res = validate_trace("ChainWordTrace.tla", cfg, tr, nthreads=nt, metaname=meta)
     if not res.accepted:
-        res = validate_trace("LaneWordTrace.tla", cfg, tr, nthreads=nt, metaname=meta + "b")
+        res = validate_trace("ChainWordTrace.tla", cfg, tr, nthreads=nt, metaname=meta + "b")
     return res
 
 
@@ -243,7 +254,7 @@ def drive(v, seed, runs):
     d = rundir(PROP)
     known = {k.get("key") for k in known_findings(PROP)["findings"]}
     wl_defect = None
-    todo = []
+    todo, whole = [], []
     for W in (1, 2, 3):
         wordtrace_cfg(W)
     def one(i, r):
@@ -296,13 +307,36 @@ def drive(v, seed, runs):
             if shape == 6 and q == 0:
                 continue    # the workloop's own word is driven by _dispatch_workloop_*: not a lane, not modelled
             todo.append((parts[q], q, widths[q], nt, desc, "C03_lw%d_%d" % (i, q)))
+        whole.append((tr, nt, desc, i, s))
         if len(v.samples) < 3:
             body = [l for l in open(tr).read().splitlines() if '"St"' in l][:3] + \
                    [l for l in open(tr).read().splitlines() if '"St"' not in l][:6]
             v.samples.append({"trace": os.path.basename(tr), "mode": desc, "queues": len(parts), "excerpt": body})
-    results = par([(lambda t=t: validate_queue_run(t[0], t[2], t[3], t[5])) for t in todo], 6)
+    def twice(spec, cfg, tr, nt, meta):
+        r = validate_trace(spec, cfg, tr, nthreads=nt, metaname=meta)
+        return r if r.accepted else validate_trace(spec, cfg, tr, nthreads=nt, metaname=meta + "b")
+    jobs = [(lambda t=t: validate_queue_run(t[0], t[2], t[3], t[5])) for t in todo]
+    # the whole recorded order: cross-level lock discipline (ChainLockTrace) and the thread-event protocol of the waiters
+    jobs += [(lambda w=w: twice("ChainLockTrace.tla", "ChainLockTrace.cfg", w[0], w[1], "C03_lock%d" % w[3])) for w in whole]
+    jobs += [(lambda w=w: twice("ThreadEventTrace.tla", "ThreadEventTrace.cfg", w[0], w[1], "C03_te%d" % w[3])) for w in whole]
+    results = par(jobs, 6)
     for t, res in zip(todo, results):
         validate_queue(v, t[0], t[1], t[2], t[3], t[4], t[5], res=res)
+    n = len(todo)
+    for k, (tr, nt, desc, i, s) in enumerate(whole):
+        for res, what, name in ((results[n + k], "cross-level lock discipline (ChainLockTrace: an item ran, or an inner queue was drained, "
+                                 "on a thread that does not own the drain lock of a serial level below it)", "lock"),
+                                (results[n + len(whole) + k], "thread-event protocol of a blocked synchronous caller (ThreadEventTrace)", "thread_event")):
+            if res.accepted:
+                v.traces += 1
+                v.states += res.distinct
+                v.transitions += res.generated
+                continue
+            lines = open(res.trace_with_header).read().splitlines()
+            kk = res.maxl or 1
+            p = save_replay(PROP, "%s_rejected_%d.ndjson" % (name, s), src=res.trace_with_header)
+            v.violation("%s (%s): record %d is not a step the trace spec allows: %s" %
+                        (what, desc, kk, lines[kk - 1][:400] if kk - 1 < len(lines) else ""), p)
     if wl_defect:
         v.notes["workloop_bottom"] = "crashes on this tree (%s); shapes with a workloop bottom not explored further" % wl_defect
     else:
